@@ -107,6 +107,11 @@ def create_marker_cache_from_specified_markers(
     -----
     If there are marker genes missing from query_gene_names,
     those markers will just be dropped and a warning issued
+
+    It is an error for a non-empty list of markers to have no gene
+    in query_gene_names, unless taxonomy_tree is provided and the
+    list belongs to a key that needs no markers (anything but a parent
+    with more than one child); such a list is just written out empty.
     """
 
     # check that all non-trivial parent nodes will have more than
@@ -118,6 +123,16 @@ def create_marker_cache_from_specified_markers(
             taxonomy_tree=taxonomy_tree,
             log=log,
             min_markers=min_markers)
+
+    # Only parents that have to choose between more than one child
+    # need markers. Entries for any other key (a parent with a single
+    # child, a node of a level that was dropped from the tree...)
+    # are never used, so they need not overlap with the query genes.
+    # Without a taxonomy_tree, every entry is assumed to be needed.
+    if taxonomy_tree is not None:
+        needs_markers = _parents_needing_markers(taxonomy_tree)
+    else:
+        needs_markers = None
 
     query_gene_set = set(query_gene_names)
     reference_gene_set = set(reference_gene_names)
@@ -132,7 +147,9 @@ def create_marker_cache_from_specified_markers(
         marker_set = set(marker_lookup[parent_node])
         these_markers = list(marker_set.intersection(query_gene_set))
 
-        if len(these_markers) == 0 and len(marker_set) > 0:
+        is_needed = (needs_markers is None or parent_node in needs_markers)
+
+        if len(these_markers) == 0 and len(marker_set) > 0 and is_needed:
             these_markers = list(query_gene_set)
             msg = f"No markers at parent node '{parent_node}' were present "
             msg += "in query set."
@@ -608,6 +625,30 @@ def serialize_markers(
         marker_gene_lookup[grp_key] = [
             str(reference_gene_names[ii]) for ii in ref_idx]
     return marker_gene_lookup
+
+
+def _parents_needing_markers(taxonomy_tree):
+    """
+    Return the set of parent nodes in taxonomy_tree that have more
+    than one child, i.e. the only parents for which marker genes
+    are used. Parents are represented as they are keyed in a marker
+    lookup ('{level}/{node}'; 'None' for the root).
+    """
+    result = set()
+    for parent in taxonomy_tree.all_parents:
+        if parent is None:
+            parent_str = 'None'
+            children = taxonomy_tree.children(
+                level=None,
+                node=None)
+        else:
+            parent_str = f'{parent[0]}/{parent[1]}'
+            children = taxonomy_tree.children(
+                level=parent[0],
+                node=parent[1])
+        if len(children) > 1:
+            result.add(parent_str)
+    return result
 
 
 def validate_marker_lookup(
